@@ -107,6 +107,13 @@ claim("C08", "other",
       "Trusted: clang 14 + tbfscan, the frozen operator role table (which parameter is the output), callee resolution by name and arity inside the library.",
       "interprocedural store-form (accumulate-only) effect analysis over the clang AST", "DESIGN.md §2 C08")
 
+claim("C16", "other",
+      "Only the soundness of positive answers is decided - a necessary condition of 'returns a handle if and only if it exists': in the three in-group lookups every returned position is dominated by `position != number of elements` and by an equality test between the query and the key stored at that very position, the search runs over [0, count) with a comparator on the same key, every other exit is empty; "
+      "at tree level a (group, position) pair is returned only under iterator != end, first <= query <= last and a successful in-group lookup of the same query in that group, groups being searched by their last index; the target/source tree forwards to the right tree. "
+      "Completeness (an existing element is always found) rests on the sortedness of groups and cells and on the binary-search helper - run-time data, NOT decided.",
+      "Trusted: clang 14 + tbfscan; structured control flow of the lookup functions (early-return guards).",
+      "dominance / key-agreement rules on the lookup functions over the clang AST", "DESIGN.md §8.6")
+
 _todo = "check not built yet in this round (see DESIGN.md §7 build order)"
 for p in []:
     NA[p] = _todo
@@ -114,4 +121,4 @@ NA["C01"] = "exactly-once is a counting statement over all particle sets, height
 NA["C04"] = "bound on a floating-point truncation error over all positions/heights/orders: nothing about it is visible in the shape of the code (accumulate clause is under C08, code conventions under C11)."
 NA["C05"] = "bound on a floating-point interpolation error; its batching clause is the accumulate/recompute rule decided under C08."
 NA["C07"] = "run-time data-structure invariant established by loops over run-time data for every occupancy pattern; no separable structural clause."
-NA["C16"] = "correctness of two nested binary searches over run-time contents; the only structural relation (search key = ordering key) is inseparable from C07."
+NA["C16_old"] = "correctness of two nested binary searches over run-time contents; the only structural relation (search key = ordering key) is inseparable from C07."
